@@ -37,7 +37,7 @@ import (
 func TestMain(m *testing.M) {
 	if dump := os.Getenv("VERIF_DUMP"); dump != "" && len(os.Args) > 1 && os.Args[1] == "--verif-hook" {
 		stdin, _ := io.ReadAll(os.Stdin)
-		data, _ := json.Marshal(map[string]any{"argv": os.Args[2:], "stdin": string(stdin)})
+		data, _ := json.Marshal(map[string]any{"argv": os.Args[2:], "argv0": os.Args[0], "stdin": string(stdin)})
 		f, err := os.OpenFile(dump, os.O_CREATE|os.O_WRONLY|os.O_APPEND, 0o644)
 		if err == nil {
 			f.Write(append(data, '\n'))
@@ -557,6 +557,7 @@ func (v *verifSession) parseCalls(lines []string) []verifkit.M {
 	for _, line := range lines {
 		var c struct {
 			Argv  []string `json:"argv"`
+			Argv0 string   `json:"argv0"`
 			Stdin string   `json:"stdin"`
 		}
 		if json.Unmarshal([]byte(line), &c) != nil {
@@ -568,7 +569,7 @@ func (v *verifSession) parseCalls(lines []string) []verifkit.M {
 				target = n
 			}
 		}
-		calls = append(calls, verifkit.M{"target": target, "argv": c.Argv, "stdin": c.Stdin})
+		calls = append(calls, verifkit.M{"target": target, "argv": c.Argv, "argv0": c.Argv0, "stdin": c.Stdin})
 	}
 	return calls
 }
@@ -1026,7 +1027,9 @@ func verifHookWorld(w *verifWorld) (postURL string, actorURL string, truth []ver
 	hrefs := []string{u("/plain"), u("/with space"), "--leading-dash", "$(touch /tmp/verif-pwned)", "`id`", "%url", "%mimetype",
 		"'single' \"double\"", u("/a?b=c&d=%25e#frag"), "; rm -rf /tmp/x", "a\\b", "%subtype/%url", "-", "ünïcödé ☃",
 		/* text that reads like a character reference once more: the address is decoded once, by the HTML parser */
-		u("/q?page=2&copy=3&lt=4&reg=eu"), u("/AT&amp;T/x?a=1&amp;b=2"), "&#65;&quot;"}
+		u("/q?page=2&copy=3&lt=4&reg=eu"), u("/AT&amp;T/x?a=1&amp;b=2"), "&#65;&quot;",
+		/* format characters (zero width non-joiner, as Persian and Indic addresses have it; a soft hyphen) are part of the address */
+		u("/می\u200cخواهم/نمی\u200cدانم"), "https://ex\u00adample.org/a\u200db"}
 	content := "<p>"
 	for i, h := range hrefs {
 		content += fmt.Sprintf(`<a href="%s">link%d</a> `, strings.NewReplacer("&", "&amp;", `"`, "&quot;").Replace(h), i)
@@ -1044,14 +1047,16 @@ func verifHookWorld(w *verifWorld) (postURL string, actorURL string, truth []ver
 			map[string]any{"type": "Link", "href": u("/att/weird"), "mediaType": "x-%url/%mimetype+%supertype", "name": "fourth"},
 			map[string]any{"type": "Document", "url": u("/att/untyped doc"), "name": "fifth"},
 			map[string]any{"type": "Document", "url": "https://CDN.Example.ORG/Videos/Clip.mp4?X-Sig=AbC%2Fd&n=1"},
-			map[string]any{"type": "Link", "href": "https://Media.Example.org/stream.m3u8", "mediaType": "application/x-mpegURL", "name": "seventh"}}})
+			map[string]any{"type": "Link", "href": "https://Media.Example.org/stream.m3u8", "mediaType": "application/x-mpegURL", "name": "seventh"},
+			map[string]any{"type": "Document", "url": u("/att/می\u200cخواهم"), "name": "eighth"}}})
 	/* addresses of attachments are parsed and written out again (a blank becomes %20): the same address in the
 	   normal form of net/url, computed here from the document; media types as the document settles them */
 	truth = append(truth, verifTruth{verifNormal(u("/att/one two.png")), "image/png", "image", "png", true}, verifTruth{link: verifNormal(u("/att/doc?x=$(id)"))},
 		verifTruth{verifNormal(u("/att/noType")), "image/*", "image", "*", true}, verifTruth{link: verifNormal(u("/att/weird"))},
 		verifTruth{verifNormal(u("/att/untyped doc")), "*/*", "*", "*", true},
 		verifTruth{verifNormal("https://CDN.Example.ORG/Videos/Clip.mp4?X-Sig=AbC%2Fd&n=1"), "*/*", "*", "*", true},
-		verifTruth{verifNormal("https://Media.Example.org/stream.m3u8"), "application/x-mpegURL", "application", "x-mpegURL", true})
+		verifTruth{verifNormal("https://Media.Example.org/stream.m3u8"), "application/x-mpegURL", "application", "x-mpegURL", true},
+		verifTruth{verifNormal(u("/att/می\u200cخواهم")), "*/*", "*", "*", true})
 	w.put("/users/carol", map[string]any{"type": "Person", "name": "carol", "preferredUsername": "carol",
 		"icon": map[string]any{"type": "Image", "url": "https://IMG.Example.ORG/Avatars/Carol Icon.png", "mediaType": "Image/PNG"},
 		"image": []any{map[string]any{"type": "Image", "url": u("/media/banner-$(x).jpg")}, map[string]any{"type": "Link", "href": u("/media/small.gif"), "mediaType": "image/gif", "width": 1, "height": 1}}})
@@ -1068,8 +1073,20 @@ func TestVerifHook(t *testing.T) {
 	defer w.sim.Cleanup()
 	postURL, actorURL, truth := verifHookWorld(w)
 	sid := 0
-	for _, args := range in.Hooks {
-		hook := append([]string{os.Args[0], "--verif-hook"}, args...)
+	/* the hook program by its bare name, found through PATH (as the default, xdg-open, is): a link to this binary */
+	bare := fmt.Sprintf("verifhook%d", os.Getpid())
+	bindir, _ := os.MkdirTemp("", "verifbin")
+	defer os.RemoveAll(bindir)
+	haveBare := os.Symlink(os.Args[0], bindir+"/"+bare) == nil
+	if haveBare {
+		os.Setenv("PATH", bindir+":"+os.Getenv("PATH"))
+	}
+	for hi, args := range in.Hooks {
+		program := os.Args[0]
+		if haveBare && hi%2 == 1 && os.Getenv("VERIF_HOOK_FROM_CONFIG") == "" {
+			program = bare
+		}
+		hook := append([]string{program, "--verif-hook"}, args...)
 		if os.Getenv("VERIF_HOOK_FROM_CONFIG") != "" {
 			/* this process was started with a configuration file naming exactly this hook: what start-up made
 			   of it is what runs; `hook` stays the command as configured */
@@ -1138,7 +1155,8 @@ func TestVerifHook(t *testing.T) {
 				panicked, what, wedged := v.press(p.keys, []byte(p.keys))
 				calls := []verifkit.M{}
 				for _, c := range v.hookCalls() {
-					argv := append([]string{os.Args[0], "--verif-hook"}, c["argv"].([]string)...)
+					/* argv as the program really received it, its own name included */
+					argv := append([]string{c["argv0"].(string), "--verif-hook"}, c["argv"].([]string)...)
 					calls = append(calls, verifkit.M{"argv": argv, "stdin": c["stdin"]})
 				}
 				ev := verifkit.M{"ev": "hook", "hook": hook, "link": p.link, "mt": p.mt, "calls": calls, "keys": p.keys, "panic": panicked || wedged}
